@@ -495,6 +495,8 @@ struct Case {
     ct: [usize; 4], // min h, min w, max h, max w
     surf: (usize, usize),
     json: bool,
+    /// render into a transposed (column major) window
+    transposed: bool,
 }
 
 fn gen_case(rng: &mut Rng) -> Case {
@@ -526,7 +528,8 @@ fn gen_case(rng: &mut Rng) -> Case {
         ppc = (*rng.pick(&big), *rng.pick(&big));
     }
     let json = json && !api_only(&tree);
-    Case { tree, glyphs, ppc, ct, surf, json }
+    let transposed = rng.chance(1, 4);
+    Case { tree, glyphs, ppc, ct, surf, json, transposed }
 }
 
 fn has_flex_factor(t: &T) -> bool {
@@ -615,7 +618,7 @@ impl Terminal for Rec {
         Ok(self.size)
     }
     fn position(&mut self) -> Result<Position, Error> {
-        Ok(Position::new(0, 0))
+        Ok(ps(0, 0))
     }
     fn waker(&self) -> TerminalWaker {
         TerminalWaker::new(|| Ok(()))
@@ -633,7 +636,7 @@ impl Terminal for Rec {
 }
 fn make_ctx(glyphs: bool, ppc: (usize, usize)) -> ViewContext {
     let term = Rec {
-        size: TerminalSize { cells: Size::new(1, 1), pixels: Size::new(ppc.0, ppc.1) },
+        size: TerminalSize { cells: sz(1, 1), pixels: sz(ppc.0, ppc.1) },
         caps: TerminalCaps { glyphs, ..TerminalCaps::default() },
     };
     ViewContext::new(&term).expect("ctx")
@@ -705,7 +708,9 @@ impl View for Probe {
         Ok(())
     }
     fn layout(&self, _ctx: &ViewContext, ct: BoxConstraint, mut layout: ViewMutLayout<'_>) -> Result<(), Error> {
-        *layout = Layout::new().with_size(ct.clamp(self.size));
+        let (lo, hi) = (ct.min(), ct.max());
+        let size = Size { height: self.size.height.max(lo.height).min(hi.height), width: self.size.width.max(lo.width).min(hi.width) };
+        *layout = Layout::new().with_size(size);
         Ok(())
     }
 }
@@ -717,7 +722,7 @@ fn image_of(ph: usize, pw: usize) -> Image {
     m.entry((ph, pw))
         .or_insert_with(|| {
             let data: Arc<[RGBA]> = (0..ph * pw).map(|i| RGBA::new(i as u8, 7, 7, 255)).collect();
-            Image::from_parts(data, Shape::from(Size::new(ph, pw)))
+            Image::from_parts(data, Shape::from(sz(ph, pw)))
         })
         .clone()
 }
@@ -727,13 +732,13 @@ fn surface_of(h: usize, w: usize) -> &'static SurfaceOwned<Cell> {
     let m = g.get_or_insert_with(HashMap::new);
     *m.entry((h, w)).or_insert_with(|| {
         let s: &'static SurfaceOwned<Cell> =
-            Box::leak(Box::new(SurfaceOwned::new_with(Size::new(h, w), |_| Cell::new_char(bg(RGBA::new(5, 5, 0x7a, 255)), 's'))));
+            Box::leak(Box::new(SurfaceOwned::new_with(sz(h, w), |_| Cell::new_char(bg(RGBA::new(5, 5, 0x7a, 255)), 's'))));
         s
     })
 }
 fn glyph_of(h: usize, w: usize, fb: &[Ch]) -> Glyph {
     let path: Path = "M0,0L1,0L1,1Z".parse().expect("path");
-    Glyph::new(path, FillRule::default(), None, Size::new(h, w), fb.iter().map(ch_char).collect(), None)
+    Glyph::new(path, FillRule::default(), None, sz(h, w), fb.iter().map(ch_char).collect(), None)
 }
 fn align_of(a: &Al) -> Align {
     match a {
@@ -803,12 +808,22 @@ fn build(env: &Env, t: &T, id: &mut usize) -> ArcView<'static> {
         T::Text(cells, wraps) => text_of(me, cells, *wraps).arc(),
         T::Str(cs) => cs.iter().map(ch_char).collect::<String>().arc(),
         T::Glyph(h, w, fb) => glyph_of(*h, *w, fb).arc(),
-        T::Probe(h, w) => Probe { id: me + 1, size: Size::new(*h, *w), log: env.probes.clone() }.arc(),
+        T::Probe(h, w) => Probe { id: me + 1, size: sz(*h, *w), log: env.probes.clone() }.arc(),
         T::Surface(h, w) => surface_of(*h, *w).as_ref().arc(),
         T::Ascii(h, w) => image_of(*h, *w).ascii_view().arc(),
         T::Image(h, w) => image_of(*h, *w).arc(),
         T::Fill => node_color(me).arc(),
         T::Unit => ().arc(),
+        T::Bar(hor, vis, off) if me % 2 == 1 => {
+            // the variant that asks for its position at render time
+            let (vis, off) = (*vis, *off);
+            ScrollBarFn::new(
+                if *hor { Axis::Horizontal } else { Axis::Vertical },
+                Face::new(Some(node_color(me)), Some(node_color(me)), FaceAttrs::EMPTY),
+                move || ScrollBarPosition { offset: off, visible: vis },
+            )
+            .arc()
+        }
         T::Bar(hor, vis, off) => ScrollBar::new(
             if *hor { Axis::Horizontal } else { Axis::Vertical },
             Face::new(Some(node_color(me)), Some(node_color(me)), FaceAttrs::EMPTY),
@@ -830,7 +845,28 @@ fn build(env: &Env, t: &T, id: &mut usize) -> ArcView<'static> {
                 }
                 children.push(child);
             }
-            FlexRef::new(children).direction(if *hor { Axis::Horizontal } else { Axis::Vertical }).justify(justify_of(*j)).arc()
+            // every implementor of `FlexArray`: array, tuple, `Either`, `Vec`
+            let dir = if *hor { Axis::Horizontal } else { Axis::Vertical };
+            let jus = justify_of(*j);
+            match children.len() {
+                1 => {
+                    let a: [FlexChild<ArcView<'static>>; 1] = [children.pop().unwrap()];
+                    FlexRef::new(a).direction(dir).justify(jus).arc()
+                }
+                2 => {
+                    let b = children.pop().unwrap();
+                    let a = children.pop().unwrap();
+                    FlexRef::new((a, b)).direction(dir).justify(jus).arc()
+                }
+                3 => {
+                    let c = children.pop().unwrap();
+                    let b = children.pop().unwrap();
+                    let a = children.pop().unwrap();
+                    FlexRef::new([a, b, c]).direction(dir).justify(jus).arc()
+                }
+                4 => FlexRef::new(Either::<Vec<FlexChild<ArcView<'static>>>, Vec<FlexChild<ArcView<'static>>>>::Right(children)).direction(dir).justify(jus).arc(),
+                _ => FlexRef::new(children).direction(dir).justify(jus).arc(),
+            }
         }
         T::Flex(hor, j, cs) => {
             let mut flex = Flex::new(if *hor { Axis::Horizontal } else { Axis::Vertical }).justify(justify_of(*j));
@@ -844,7 +880,7 @@ fn build(env: &Env, t: &T, id: &mut usize) -> ArcView<'static> {
         T::Cont(h, w, av, ah, m, face, c) => {
             let child = build(env, c, id);
             let mut cont = Container::new(child)
-                .with_size(Size::new(*h, *w))
+                .with_size(sz(*h, *w))
                 .with_vertical(align_of(av))
                 .with_horizontal(align_of(ah))
                 .with_margins(Margins { left: m[0], right: m[1], top: m[2], bottom: m[3] });
@@ -1024,7 +1060,7 @@ fn from_json(env: &Env, cache: Arc<Cache>, doc: &Value) -> Result<ArcView<'stati
     });
     let e = env.clone();
     de.register("probe", move |_seed: &ViewDeserializer<'_>, v: &Value| {
-        Probe { id: v["id"].as_u64().unwrap() as usize, size: Size::new(v["size"][0].as_u64().unwrap() as usize, v["size"][1].as_u64().unwrap() as usize), log: e.probes.clone() }.arc()
+        Probe { id: v["id"].as_u64().unwrap() as usize, size: sz(v["size"][0].as_u64().unwrap() as usize, v["size"][1].as_u64().unwrap() as usize), log: e.probes.clone() }.arc()
     });
     de.register("surface", |_seed: &ViewDeserializer<'_>, v: &Value| {
         surface_of(v["size"][0].as_u64().unwrap() as usize, v["size"][1].as_u64().unwrap() as usize).as_ref().arc()
@@ -1186,7 +1222,24 @@ fn walk(t: &T, id: &mut usize, l: Option<ViewLayout<'_>>, parent: Win, glyphs: b
     }
 }
 
+/// the four numbers of a layout as its `Debug` impl prints them (row, col, height, width)
+fn layout_debug_numbers(l: &Layout) -> Vec<usize> {
+    let text = format!("{l:?}");
+    text.split(|c: char| !c.is_ascii_digit()).filter(|t| !t.is_empty()).filter_map(|t| t.parse().ok()).collect()
+}
+thread_local! {
+    /// disagreements between the accessors of `Layout` / `Tree` and an independent reading, per case
+    static ACCESSOR_PROBLEMS: std::cell::RefCell<Vec<String>> = const { std::cell::RefCell::new(Vec::new()) };
+}
+fn count_layouts(l: ViewLayout<'_>) -> usize {
+    1 + l.children().map(count_layouts).sum::<usize>()
+}
 fn lt_string(l: ViewLayout<'_>, data: &HashMap<usize, char>, out: &mut String) {
+    let by_accessor = vec![l.position().row, l.position().col, l.size().height, l.size().width];
+    let by_debug = layout_debug_numbers(&l);
+    if by_accessor != by_debug {
+        ACCESSOR_PROBLEMS.with(|p| p.borrow_mut().push(format!("position()/size() give {by_accessor:?}, Debug prints {by_debug:?}")));
+    }
     let d = if l.data::<usize>().is_some() || l.data::<Value>().is_some() {
         't'
     } else if let Some(v) = l.data::<ArcView<'static>>() {
@@ -1231,8 +1284,70 @@ fn kinds_by_id<'a>(t: &'a T, id: &mut usize, out: &mut Vec<&'a T>) {
     }
 }
 
+/// `Size` / `Position` from their public fields (not through the crate's constructors)
+fn sz(height: usize, width: usize) -> Size {
+    Size { height, width }
+}
+fn ps(row: usize, col: usize) -> Position {
+    Position { row, col }
+}
 const PAD_R: usize = 2;
 const PAD_C: usize = 3;
+
+/// Sentinel filled buffer with a window in the middle that is handed to `render`.  The window is built
+/// from a hand-written `Shape` (row major, or column major = a transposed view) and the buffer is read back
+/// by index: neither `view_mut` / `ViewBounds` nor `Surface::get` / `Shape::offset` take part in the set-up
+/// or in the oracle.
+struct Canvas {
+    buf: Vec<Cell>,
+    ch: usize,
+    cw: usize,
+    transposed: bool,
+}
+impl Canvas {
+    fn new(sh: usize, sw: usize, transposed: bool) -> Canvas {
+        let (ch, cw) = (sh + 2 * PAD_R, sw + 2 * PAD_C);
+        Canvas { buf: (0..ch * cw).map(|_| sentinel()).collect(), ch, cw, transposed }
+    }
+    fn idx(&self, r: usize, c: usize) -> usize {
+        if self.transposed { c * self.ch + r } else { r * self.cw + c }
+    }
+    fn at(&self, r: usize, c: usize) -> &Cell {
+        &self.buf[self.idx(r, c)]
+    }
+    fn strides(&self) -> (usize, usize) {
+        if self.transposed { (1, self.ch) } else { (self.cw, 1) }
+    }
+    fn target_shape(&self, sh: usize, sw: usize) -> Shape {
+        if sh == 0 || sw == 0 {
+            return Shape { start: 0, end: 0, width: 0, height: 0, row_stride: 0, col_stride: 0 };
+        }
+        let (rs, cs) = self.strides();
+        let start = self.idx(PAD_R, PAD_C);
+        Shape { start, end: start + (sh - 1) * rs + sw * cs, width: sw, height: sh, row_stride: rs, col_stride: cs }
+    }
+    fn target(&mut self, sh: usize, sw: usize) -> TerminalSurface<'_> {
+        SurfaceMutView::new(self.target_shape(sh, sw), &mut self.buf)
+    }
+    /// rectangle (canvas rows / columns) of a non-empty sub-surface of the canvas
+    fn rect_of(&self, s: &Shape) -> Win {
+        if s.height == 0 || s.width == 0 {
+            return None;
+        }
+        let (r0, c0) = if self.transposed { (s.start % self.ch, s.start / self.ch) } else { (s.start / self.cw, s.start % self.cw) };
+        Some((r0 as u128, c0 as u128, (r0 + s.height) as u128, (c0 + s.width) as u128))
+    }
+}
+fn is_sentinel(c: &Cell) -> bool {
+    let f = c.face();
+    matches!(c.kind(), surf_n_term::render::CellKind::Char('#'))
+        && f.fg.map(|x| x.to_rgba()) == Some([9, 9, 9, 255])
+        && f.bg.map(|x| x.to_rgba()) == Some([9, 9, 9, 255])
+        && f.attrs == FaceAttrs::EMPTY
+}
+fn ceil_div(a: usize, b: usize) -> usize {
+    a / b + (a % b != 0) as usize
+}
 
 #[derive(Default)]
 struct Exec {
@@ -1248,20 +1363,19 @@ struct Exec {
     /// image views: (pixels, surface cells, cells covered by the image cell)
     image_cells: Vec<((usize, usize), (usize, usize), (usize, usize))>,
 }
-/// `Cell` equality by content (images and glyphs compare by address in the crate)
-fn same_cell(a: Option<&Cell>, b: Option<&Cell>) -> bool {
+/// `Cell` equality by content, from the public pieces (the crate compares images and glyphs by address)
+fn same_cell(a: &Cell, b: &Cell) -> bool {
     use surf_n_term::render::CellKind;
-    if a == b {
-        return true;
-    }
-    let (Some(a), Some(b)) = (a, b) else { return false };
-    if a.face() != b.face() {
+    let (fa, fb) = (a.face(), b.face());
+    if fa.fg.map(|c| c.to_rgba()) != fb.fg.map(|c| c.to_rgba()) || fa.bg.map(|c| c.to_rgba()) != fb.bg.map(|c| c.to_rgba()) || fa.attrs != fb.attrs {
         return false;
     }
     match (a.kind(), b.kind()) {
         (CellKind::Char(x), CellKind::Char(y)) => x == y,
-        (CellKind::Image(x), CellKind::Image(y)) => x.size() == y.size() && x.iter().map(|p| p.to_rgba()).eq(y.iter().map(|p| p.to_rgba())),
-        (CellKind::Glyph(x), CellKind::Glyph(y)) => x.size() == y.size() && x.fallback_str() == y.fallback_str(),
+        (CellKind::Image(x), CellKind::Image(y)) => {
+            (x.shape().height, x.shape().width) == (y.shape().height, y.shape().width) && x.iter().map(|p| p.to_rgba()).eq(y.iter().map(|p| p.to_rgba()))
+        }
+        (CellKind::Glyph(x), CellKind::Glyph(y)) => (x.size().height, x.size().width) == (y.size().height, y.size().width) && x.fallback_str() == y.fallback_str(),
         _ => false,
     }
 }
@@ -1287,7 +1401,11 @@ fn shape_str(s: &Shape) -> String {
 fn exec(case: &Case, view: &ArcView<'static>, env: &Env, sample_rng: &mut Rng, diff_leaves: usize) -> Exec {
     let mut ex = Exec::default();
     let ctx = make_ctx(case.glyphs, case.ppc);
-    let ct = BoxConstraint::new(Size::new(case.ct[0], case.ct[1]), Size::new(case.ct[2], case.ct[3]));
+    let ct = BoxConstraint::new(Size { height: case.ct[0], width: case.ct[1] }, Size { height: case.ct[2], width: case.ct[3] });
+    let got_ppc = ctx.pixels_per_cell();
+    if (got_ppc.height, got_ppc.width) != case.ppc || ctx.has_glyphs() != case.glyphs {
+        ex.fails.push(("ViewContext::new does not take glyph support and pixels per cell (pixels / cells) from the terminal".into(), format!("{:?} {}", case.ppc, case.glyphs), format!("{}x{} {}", got_ppc.height, got_ppc.width, ctx.has_glyphs())));
+    }
     env.probes.lock().unwrap().clear();
     env.trace.lock().unwrap().clear();
     let mut store = ViewLayoutStore::new();
@@ -1299,7 +1417,16 @@ fn exec(case: &Case, view: &ArcView<'static>, env: &Env, sample_rng: &mut Rng, d
             return ex;
         }
     };
+    ACCESSOR_PROBLEMS.with(|p| p.borrow_mut().clear());
     lt_string(layout.view(), &env.data.lock().unwrap(), &mut ex.layout);
+    let reachable = count_layouts(layout.view());
+    let stored = layout.store().len();
+    if reachable != stored {
+        ACCESSOR_PROBLEMS.with(|p| p.borrow_mut().push(format!("children() reaches {reachable} layouts, the store holds {stored}")));
+    }
+    for p in ACCESSOR_PROBLEMS.with(|p| p.borrow().clone()) {
+        ex.fails.push(("accessors of the layout tree disagree with an independent reading".into(), "same numbers / all nodes".into(), p));
+    }
 
     // reported size within the constraint, for the kinds the property names
     let mut kinds = Vec::new();
@@ -1314,11 +1441,11 @@ fn exec(case: &Case, view: &ArcView<'static>, env: &Env, sample_rng: &mut Rng, d
 
     // render into a window of a sentinel filled canvas
     let (sh, sw) = case.surf;
-    let cw = sw + 2 * PAD_C;
-    let mut canvas = SurfaceOwned::new_with(Size::new(sh + 2 * PAD_R, cw), |_| sentinel());
+    let mut canvas = Canvas::new(sh, sw, case.transposed);
+    let cw = canvas.cw;
     {
-        let target = canvas.view_mut(PAD_R..PAD_R + sh, PAD_C..PAD_C + sw);
-        ex.target_shape = shape_str(&target.shape());
+        ex.target_shape = shape_str(&canvas.target_shape(sh, sw));
+        let target = canvas.target(sh, sw);
         ex.render = match view.render(&ctx, target, layout.view()) {
             Ok(()) => "ok".into(),
             Err(Error::InvalidLayout) => "invalid-layout".into(),
@@ -1332,12 +1459,11 @@ fn exec(case: &Case, view: &ArcView<'static>, env: &Env, sample_rng: &mut Rng, d
     ex.probes = if probes.is_empty() { "-".into() } else { probes.iter().map(|(id, s)| format!("{id}:{}", shape_str(s))).collect::<Vec<_>>().join(" ") };
 
     // containment: nothing outside of the target window changed
-    let sent = sentinel();
     let mut outside = None;
     for r in 0..sh + 2 * PAD_R {
         for c in 0..cw {
             let in_target = r >= PAD_R && r < PAD_R + sh && c >= PAD_C && c < PAD_C + sw;
-            if !in_target && canvas.get(Position::new(r, c)) != Some(&sent) {
+            if !in_target && !is_sentinel(canvas.at(r, c)) {
                 outside.get_or_insert((r, c));
             }
         }
@@ -1357,14 +1483,9 @@ fn exec(case: &Case, view: &ArcView<'static>, env: &Env, sample_rng: &mut Rng, d
     let mut called: HashMap<usize, usize> = HashMap::new();
     for (pid, s) in probes.iter() {
         *called.entry(*pid).or_insert(0) += 1;
-        let got: Win = if s.height == 0 || s.width == 0 {
-            None
-        } else {
-            let (r0, c0) = ((s.start / cw) as u128, (s.start % cw) as u128);
-            Some((r0, c0, r0 + s.height as u128, c0 + s.width as u128))
-        };
+        let got: Win = canvas.rect_of(s);
         let want = acc.node.get(&(pid - 1)).map(|x| x.0).unwrap_or(None);
-        if got != want || (got.is_some() && (s.row_stride != cw || s.col_stride != 1)) {
+        if got != want || (got.is_some() && (s.row_stride, s.col_stride) != canvas.strides()) {
             ex.fails.push((format!("probe {pid}: region handed to the leaf differs from the rectangle recorded in the layout tree"), format!("{want:?}"), format!("{got:?} (shape {})", shape_str(s))));
         }
     }
@@ -1390,7 +1511,7 @@ fn exec(case: &Case, view: &ArcView<'static>, env: &Env, sample_rng: &mut Rng, d
         }
     }
     for (r, c) in positions.iter().copied() {
-        let cell = canvas.get(Position::new(PAD_R + r, PAD_C + c)).cloned().unwrap_or_default();
+        let cell = canvas.at(PAD_R + r, PAD_C + c).clone();
         let bgc = cell.face().bg.map(|c| c.to_rgba());
         let owner: Option<(bool, usize)> = match bgc {
             Some([a, b, 0x77, 255]) => Some((false, (a as usize | (b as usize) << 8).wrapping_sub(1))),
@@ -1399,7 +1520,7 @@ fn exec(case: &Case, view: &ArcView<'static>, env: &Env, sample_rng: &mut Rng, d
         };
         // hit testing, in the coordinates of the root layout
         let chain: Option<Vec<*const Layout>> = if r >= rr && c >= rc {
-            let got: Vec<*const Layout> = root.find_path(Position::new(r - rr, c - rc)).map(|l| l as *const Layout).collect();
+            let got: Vec<*const Layout> = root.find_path(ps(r - rr, c - rc)).map(|l| l as *const Layout).collect();
             let mut want = Vec::new();
             descend(layout.view(), ((r - rr) as u128, (c - rc) as u128), &mut want);
             ex.path_checks += 1;
@@ -1440,12 +1561,19 @@ fn exec(case: &Case, view: &ArcView<'static>, env: &Env, sample_rng: &mut Rng, d
     // the (clipped) rectangle of the view, hence inside the surface given
     for (id, (win, _, _)) in acc.node.iter() {
         let (T::Image(ph, pw), Some((r0, c0, r1, c1))) = (kinds[*id], *win) else { continue };
-        let Some(cell) = canvas.get(Position::new(r0 as usize, c0 as usize)) else { continue };
-        if let surf_n_term::render::CellKind::Image(_) = cell.kind() {
-            let ext = cell.size(&ctx);
-            ex.image_cells.push(((*ph, *pw), ((r1 - r0) as usize, (c1 - c0) as usize), (ext.height, ext.width)));
-            if r0 + ext.height as u128 > r1 || c0 + ext.width as u128 > c1 {
-                ex.fails.push((format!("image view {id}: the image cell covers cells outside of the rectangle recorded for the view"), format!("at most {}x{} cells from ({r0},{c0})", r1 - r0, c1 - c0), format!("{}x{} cells", ext.height, ext.width)));
+        let cell = canvas.at(r0 as usize, c0 as usize);
+        if let surf_n_term::render::CellKind::Image(img) = cell.kind() {
+            // cells covered = ceil(pixels of the placed image / pixels per cell), from the raw shape of the image
+            // and the pixels per cell this case was generated with (not through Cell::size / Image::size_cells)
+            let (iph, ipw) = (img.shape().height, img.shape().width);
+            let ext = if case.ppc.0 == 0 || case.ppc.1 == 0 || iph == 0 || ipw == 0 { (0, 0) } else { (ceil_div(iph, case.ppc.0), ceil_div(ipw, case.ppc.1)) };
+            ex.image_cells.push(((*ph, *pw), ((r1 - r0) as usize, (c1 - c0) as usize), ext));
+            if r0 + ext.0 as u128 > r1 || c0 + ext.1 as u128 > c1 {
+                ex.fails.push((format!("image view {id}: the image cell covers cells outside of the rectangle recorded for the view"), format!("at most {}x{} cells from ({r0},{c0})", r1 - r0, c1 - c0), format!("{}x{} cells", ext.0, ext.1)));
+            }
+            let by_crate = cell.size(&ctx);
+            if (by_crate.height, by_crate.width) != ext {
+                ex.fails.push((format!("image view {id}: Cell::size of the image cell is not ceil(pixels / pixels per cell)"), format!("{}x{}", ext.0, ext.1), format!("{}x{}", by_crate.height, by_crate.width)));
             }
         }
     }
@@ -1469,8 +1597,8 @@ fn exec(case: &Case, view: &ArcView<'static>, env: &Env, sample_rng: &mut Rng, d
             ex.fails.push(("harness: muting a leaf changed the layout".into(), ex.layout.clone(), l2));
             continue;
         }
-        let mut canvas2 = SurfaceOwned::new_with(Size::new(sh + 2 * PAD_R, cw), |_| sentinel());
-        if view2.render(&ctx, canvas2.view_mut(PAD_R..PAD_R + sh, PAD_C..PAD_C + sw), layout2.view()).is_err() {
+        let mut canvas2 = Canvas::new(sh, sw, case.transposed);
+        if view2.render(&ctx, canvas2.target(sh, sw), layout2.view()).is_err() {
             continue;
         }
         ex.diff_checks += 1;
@@ -1478,7 +1606,7 @@ fn exec(case: &Case, view: &ArcView<'static>, env: &Env, sample_rng: &mut Rng, d
         let mut bad = None;
         for r in 0..sh + 2 * PAD_R {
             for c in 0..cw {
-                if !same_cell(canvas.get(Position::new(r, c)), canvas2.get(Position::new(r, c))) && !inside(win, r, c) {
+                if !same_cell(canvas.at(r, c), canvas2.at(r, c)) && !inside(win, r, c) {
                     bad.get_or_insert((r, c));
                 }
             }
@@ -1490,7 +1618,7 @@ fn exec(case: &Case, view: &ArcView<'static>, env: &Env, sample_rng: &mut Rng, d
     // a few find_path answers for the correspondence with the model
     for _ in 0..3 {
         let p = (sample_rng.below(sh as u64 + 2) as usize, sample_rng.below(sw as u64 + 2) as usize);
-        let chain: Vec<String> = root.find_path(Position::new(p.0, p.1)).map(|l| format!("{},{},{},{}", l.position().row, l.position().col, l.size().height, l.size().width)).collect();
+        let chain: Vec<String> = root.find_path(ps(p.0, p.1)).map(|l| format!("{},{},{},{}", l.position().row, l.position().col, l.size().height, l.size().width)).collect();
         ex.paths.push((p, chain.join(" ")));
     }
     ex
@@ -1584,7 +1712,7 @@ impl Runner {
         let toks = toks.join(" ");
         let head = format!("{} {} {} {} {} {} {}", if case.glyphs { 1 } else { 0 }, case.ppc.0, case.ppc.1, case.ct[0], case.ct[1], case.ct[2], case.ct[3]);
         let input = json!({"tree": tree_json(&case.tree), "glyphs": case.glyphs, "ppc": [case.ppc.0, case.ppc.1],
-            "ct": case.ct.iter().map(|x| x.to_string()).collect::<Vec<_>>(), "surf": [case.surf.0, case.surf.1], "json": case.json,
+            "ct": case.ct.iter().map(|x| x.to_string()).collect::<Vec<_>>(), "surf": [case.surf.0, case.surf.1], "json": case.json, "transposed": case.transposed,
             "model_request": format!("c10 layout {head} {toks}")});
         if !BAR_HUGE && has_bar(&case.tree) && (case.ct[2] >= (1 << 20) || case.ct[3] >= (1 << 20)) {
             self.out.hist("skipped:scrollbar-under-huge-extent");
@@ -1637,9 +1765,10 @@ impl Runner {
         let grid = case.ct[2] < (1 << 20) && case.ct[3] < (1 << 20);
         let corr_ok = !has_flex_factor(&case.tree) || grid;
         self.n += 1;
-        self.out.case(&format!("{head} {toks} {:?} {}", case.surf, case.json), nodes >= 2);
+        self.out.case(&format!("{head} {toks} {:?} {} {}", case.surf, case.json, case.transposed), nodes >= 2);
         self.out.hist(&format!("class:{class}"));
         self.out.hist(if case.json { "route:json" } else { "route:api" });
+        self.out.hist(if case.transposed { "target:transposed window" } else { "target:row major window" });
         self.out.hist(&format!("nodes:{}", match nodes { 1 => "1", 2..=4 => "2-4", 5..=12 => "5-12", _ => "13+" }));
         self.out.hist(if grid { "extents:<2^20" } else { "extents:huge" });
         match res {
@@ -1688,6 +1817,7 @@ fn case_parse(v: &Value) -> Case {
         ct: [us(&v["ct"][0]), us(&v["ct"][1]), us(&v["ct"][2]), us(&v["ct"][3])],
         surf: (us(&v["surf"][0]), us(&v["surf"][1])),
         json: v["json"].as_bool().unwrap_or(false),
+        transposed: v["transposed"].as_bool().unwrap_or(false),
     }
 }
 
@@ -1707,7 +1837,7 @@ fn cont(h: usize, w: usize, av: Al, ah: Al, m: [usize; 4], face: bool, c: T) -> 
 /// white-box corner cases: every repaired defect, the unit tests of the crate, boundary extents
 fn corner_cases() -> Vec<Case> {
     let mut v = Vec::new();
-    let base = |tree: T, ct: [usize; 4], surf: (usize, usize)| Case { tree, glyphs: true, ppc: (37, 15), ct, surf, json: false };
+    let base = |tree: T, ct: [usize; 4], surf: (usize, usize)| Case { tree, glyphs: true, ppc: (37, 15), ct, surf, json: false, transposed: false };
     let m = usize::MAX;
     // Flex without children, every justification
     for j in 0..6 {
@@ -1848,14 +1978,14 @@ fn bar_case(runner: &mut Runner, rng: &mut Rng) {
     watchdog(&req);
     let ctx = make_ctx(true, (37, 15));
     let got = guarded(|| {
-        let ct = BoxConstraint::loose(if hor { Size::new(1, major) } else { Size::new(major, 1) });
+        let ct = BoxConstraint::new(sz(0, 0), if hor { sz(1, major) } else { sz(major, 1) });
         let mut store = ViewLayoutStore::new();
         let layout = view.layout_new(&ctx, ct, &mut store).map_err(|_| ())?;
-        let mut surf = SurfaceOwned::<Cell>::new(if hor { Size::new(1, n) } else { Size::new(n, 1) });
+        let mut surf = SurfaceOwned::<Cell>::new(if hor { sz(1, n) } else { sz(n, 1) });
         view.render(&ctx, surf.as_mut(), layout.view()).map_err(|_| ())?;
         let mut cells = String::new();
         for i in 0..major.min(n) {
-            let c = surf.get(if hor { Position::new(0, i) } else { Position::new(i, 0) }).cloned().unwrap_or_default();
+            let c = surf.data()[i].clone(); // 1 x n or n x 1, row major: cell i
             cells.push(if c.face().bg == Some(thumb) { '1' } else if c.face().bg == Some(track) { '0' } else { '?' });
         }
         Ok::<String, ()>(cells)
@@ -1901,6 +2031,9 @@ fn main() {
             j.json = !j.json;
             runner.run(&j, "corner");
         }
+        let mut t = case.clone();
+        t.transposed = true;
+        runner.run(&t, "corner");
     }
     let n = if cfg.thorough { 400_000 } else { 4_000 };
     for i in 0..n {
